@@ -86,20 +86,34 @@ func (p c12Profile) cluster() bool  { return p.typ == ClusterType }
 type c12Wire struct {
 	mu   sync.Mutex
 	cmds [][]string
+	// script: when non-empty, the server does not execute the command but answers with
+	// this raw RESP reply (scripted steps: legal reply shapes miniredis never produces)
+	script string
+}
+
+func (w *c12Wire) setScript(raw string) {
+	w.mu.Lock()
+	w.script = raw
+	w.mu.Unlock()
 }
 
 // connection / topology housekeeping of go-redis: not part of any wrapper command
 var c12WireIgnore = map[string]bool{"AUTH": true, "HELLO": true, "SELECT": true, "CLUSTER": true,
 	"COMMAND": true, "READONLY": true, "CLIENT": true}
 
-func (w *c12Wire) hook(_ *server.Peer, cmd string, args ...string) bool {
+func (w *c12Wire) hook(c *server.Peer, cmd string, args ...string) bool {
 	if c12WireIgnore[cmd] {
 		return false
 	}
 	w.mu.Lock()
 	w.cmds = append(w.cmds, append([]string{cmd}, args...))
+	raw := w.script
 	w.mu.Unlock()
-	return false // never handled here: the server executes the command
+	if raw != "" {
+		c.WriteRaw(raw)
+		return true // answered here, nothing is executed
+	}
+	return false // the server executes the command
 }
 
 func (w *c12Wire) take() [][]string {
@@ -277,6 +291,7 @@ func c12Renew(t *testing.T, tw *c12Twins) {
 	// the closed server of the breaker rule gets its client now, so that the decoy's
 	// client below is created after both
 	c12Dead(t)
+	c12Hung(t)
 	if tw.mD, err = miniredis.Run(); err != nil {
 		t.Fatalf("miniredis D: %v", err)
 	}
@@ -556,6 +571,8 @@ func (e *c12Env) step(s c12Step) string {
 		return e.pipeline(s)
 	case "burst":
 		return e.burst(s)
+	case "scripted":
+		return e.scripted(s)
 	}
 	ent := c12Table[s.C]
 	if ent == nil {
@@ -700,6 +717,40 @@ func (e *c12Env) pipeline(s c12Step) string {
 		e.classes["pipeline:error"] = true
 	}
 	return ""
+}
+
+// scripted: BOTH twin servers answer the one command of the inner step with the same
+// scripted RESP reply instead of executing it - legal reply shapes of real Redis that
+// miniredis never produces (a SCAN page that is empty but has a non-zero cursor, a nil
+// where an array is usual, integers other than 0/1, very long bulks, nil elements,
+// fractional scores). The wrapper must return what go-redis returns on that reply after
+// the documented conversion; nothing is executed, so the keyspaces stay as they are.
+func (e *c12Env) scripted(s c12Step) string {
+	if len(s.P) != 1 || len(s.I) != 1 {
+		return "malformed scripted step"
+	}
+	inner := s.P[0]
+	shapes := c12Scripted[inner.C]
+	if len(shapes) == 0 || c12Table[inner.C] == nil {
+		return "unknown scripted command in case"
+	}
+	raw := shapes[int(s.I[0])%len(shapes)]
+	e.classes["scripted:"+inner.C] = true
+	e.tw.wa.setScript(raw)
+	e.tw.wb.setScript(raw)
+	defer e.tw.wa.setScript("")
+	defer e.tw.wb.setScript("")
+	if msg := e.step(inner); msg != "" {
+		return fmt.Sprintf("both servers answer %q: %s", c12Abbrev(raw), msg)
+	}
+	return ""
+}
+
+func c12Abbrev(raw string) string {
+	if len(raw) > 80 {
+		return raw[:60] + fmt.Sprintf("...(%d bytes)", len(raw))
+	}
+	return raw
 }
 
 // c12BurstScript keeps its connection busy for a moment (the loop) and then writes.
@@ -919,6 +970,12 @@ func c12GenStep(g *c12G, top bool) c12Step {
 		d := ds[g.uni(len(ds))]
 		g.elapsed += time.Duration(d) * time.Millisecond
 		return c12Step{C: "advance", I: []int64{d}}
+	case top && roll >= 11 && roll <= 13: // 3 %: scripted reply shapes
+		name := c12ScriptedNames[g.uni(len(c12ScriptedNames))]
+		in := c12Table[name].gen(g)
+		in.C = name
+		in.X = g.uni(2) == 1
+		return c12Step{C: "scripted", I: []int64{int64(g.uni(len(c12Scripted[name])))}, P: []c12Step{in}}
 	case top && roll == 10 && g.uni(3) == 0: // about 1 step in 300
 		return c12Step{C: "burst", X: g.uni(2) == 1, I: []int64{int64(12 + g.uni(13)), 3000}}
 	case top && roll >= 5 && (roll < 10 || (g.pipePct > 5 && roll >= 105-g.pipePct)): // 5 % (or pipePct %) pipelines
